@@ -16,6 +16,11 @@ from tqv import gen, ref
 from tqv.core import SubCheck, req
 from tqv.props.c02 import FLAVOURS, _ordered_subset, check_expression, make_variable, var_value
 
+# caller-owned arrays handed to the library must come back unchanged (see tqv/purity.py)
+from tqv.purity import install as _install_purity  # noqa: E402
+
+_install_purity('toqito.channels')
+
 PROPERTY = "C03"
 RULE = (
     "Partial transpose: Hypothesis draws square cases (n in 1..5 subsystems, local dims 1..4/8, size <= 64) or rectangular "
